@@ -39,6 +39,11 @@ def boundary_input(table, n):
         return "SCHEMA b;\nENTITY " + "i" * n + ";\n  a : INTEGER;\nEND_ENTITY;\nEND_SCHEMA;\n"
     if table == "string_literal":
         return "SCHEMA b;\nCONSTANT\n  k : STRING := '" + "s" * n + "';\nEND_CONSTANT;\nEND_SCHEMA;\n"
+    if table == "rendered_where":
+        return "SCHEMA b;\nENTITY e;\n  a : STRING;\nWHERE\n  w : a <> '" + "s" * max(1, n - 20) + "';\nEND_ENTITY;\nEND_SCHEMA;\n"
+    if table == "rendered_function":
+        body = "".join("  v := v + %d;\n" % (i % 97) for i in range(max(1, n // 14)))
+        return "SCHEMA b;\nFUNCTION f(p : INTEGER) : INTEGER;\n  LOCAL\n    v : INTEGER := 0;\n  END_LOCAL;\n" + body + "  RETURN (v);\nEND_FUNCTION;\nEND_SCHEMA;\n"
     if table == "paren_depth":
         return "SCHEMA b;\nENTITY e;\n  a : INTEGER;\nWHERE\n  w : " + "(" * n + "a" + ")" * n + " > 0;\nEND_ENTITY;\nEND_SCHEMA;\n"
     if table == "attr_count":
@@ -66,7 +71,7 @@ def run(ctx):
         open(p, "w").write(boundary_input(f["table"], f["n"]))
         inputs.append(("boundary:%s:%d" % (f["table"], f["n"]), p, f))
     cases, g2 = fc.gen(ctx)
-    cases = cases[:4] if ctx.quick else cases[::5]
+    cases = fc.stratify(cases)[::2] if ctx.quick else cases[::5]
     for tag, p, expect, m, c in fc.inputs(ctx, cases, wd):
         inputs.append(("%s:%s" % ("mutant:" + m["class"] if m else "valid", tag), p, m))
     # byte-level truncations and mutations of one valid schema
